@@ -1,6 +1,9 @@
 package props
 
 import (
+	"go/token"
+	"go/types"
+
 	"golang.org/x/tools/go/ssa"
 
 	"gpv/internal/core"
@@ -140,6 +143,9 @@ func checkC01Rest(c *core.Ctx) {
 		return false
 	})
 	c.Counts["decode_error_call_sites"] = n13
+
+	r15 := c.Rule("R1.5", "D", "renderers are total on what decoders publish: no unguarded dereference of a pointer field decoders may leave nil")
+	nilDerefScan(c, r15)
 }
 
 // decodeErrorDiscipline: R1.3 over a set of functions; callee filter decides
@@ -195,4 +201,118 @@ func neverFails(f *ssa.Function) bool {
 		}
 	}
 	return true
+}
+
+// nilDerefScan (R1.5, pointer part): in read-only API code, a pointer loaded
+// from a struct field is dereferenced with no dominating nil test of that
+// field, while decode code creates values of that struct type without setting
+// the field (so nil is a state decoders can publish).
+func nilDerefScan(c *core.Ctx, r *core.Rule) {
+	p := c.P
+	roots := p.Roots()
+	// fields that some decode-reachable composite creation leaves unset: type -> field index -> true
+	// (a literal T{...} lowers to Alloc + field stores; zero-value appends likewise)
+	unset := map[string]bool{}
+	for _, fn := range core.SortedFns(roots.DecReach) {
+		core.Instrs(fn, func(ins ssa.Instruction) {
+			al, ok := ins.(*ssa.Alloc)
+			if !ok {
+				return
+			}
+			st, ok := al.Type().Underlying().(*types.Pointer).Elem().Underlying().(*types.Struct)
+			if !ok {
+				return
+			}
+			set := map[int]bool{}
+			whole := false
+			for _, ref := range *al.Referrers() {
+				switch x := ref.(type) {
+				case *ssa.FieldAddr:
+					for _, r2 := range *x.Referrers() {
+						if s, ok := r2.(*ssa.Store); ok && s.Addr == ssa.Value(x) && s.Block() == al.Block() {
+							set[x.Field] = true
+						}
+					}
+				case *ssa.Store:
+					if x.Addr == ssa.Value(al) {
+						whole = true
+					}
+				}
+			}
+			if whole {
+				return
+			}
+			tn := al.Type().Underlying().(*types.Pointer).Elem().String()
+			for i := 0; i < st.NumFields(); i++ {
+				if _, isPtr := st.Field(i).Type().Underlying().(*types.Pointer); isPtr && !set[i] {
+					unset[tn+"."+st.Field(i).Name()] = true
+				}
+			}
+		})
+	}
+	n := 0
+	for _, fn := range core.SortedFns(roots.AccReach) {
+		perKey := map[string]int{}
+		core.Instrs(fn, func(ins ssa.Instruction) {
+			var base ssa.Value
+			switch x := ins.(type) {
+			case *ssa.FieldAddr:
+				base = x.X
+			case *ssa.UnOp:
+				if x.Op == token.MUL {
+					base = x.X
+				}
+			default:
+				return
+			}
+			ld, ok := base.(*ssa.UnOp)
+			if !ok || ld.Op != token.MUL {
+				return
+			}
+			if _, ok := ld.Type().Underlying().(*types.Pointer); !ok {
+				return
+			}
+			fa, ok := ld.X.(*ssa.FieldAddr)
+			if !ok {
+				return
+			}
+			fld := core.FieldOfAddr(fa)
+			tn := fa.X.Type().Underlying().(*types.Pointer).Elem().String()
+			n++
+			key := core.FnKey(fn) + "/deref:" + fld.Name()
+			perKey[key]++
+			if perKey[key] > 1 {
+				return // one obligation per (function, field)
+			}
+			// dominating nil test on a load of the same field of the same base
+			guarded := false
+			for _, dc := range core.DomConds(ins.Block()) {
+				bo, ok := dc.V.(*ssa.BinOp)
+				if !ok {
+					continue
+				}
+				for _, side := range [][2]ssa.Value{{bo.X, bo.Y}, {bo.Y, bo.X}} {
+					if !core.IsNilConst(side[1]) {
+						continue
+					}
+					if l2, ok := side[0].(*ssa.UnOp); ok && l2.Op == token.MUL {
+						if f2, ok := l2.X.(*ssa.FieldAddr); ok && f2.Field == fa.Field && types.Identical(f2.X.Type(), fa.X.Type()) {
+							if (bo.Op == token.NEQ && dc.Truth) || (bo.Op == token.EQL && !dc.Truth) {
+								guarded = true
+							}
+						}
+					}
+				}
+			}
+			switch {
+			case guarded:
+				r.OK(key, p.InstrPos(ins), "dominated by a nil test of the field")
+			case unset[tn+"."+fld.Name()]:
+				r.Violate(key, p.InstrPos(ins), "pointer field "+fld.Name()+" of "+tn+" is dereferenced with no nil test although decode code creates "+tn+" values without setting it (a decoder that returns early publishes the nil): rendering the packet panics", nil)
+			default:
+				r.Undecided(key, p.InstrPos(ins), "no nil test; no decode-side creation leaving the field unset was found")
+			}
+		})
+	}
+	c.Counts["pointer_field_derefs_in_accessors"] = n
 }
